@@ -12,6 +12,7 @@ import json
 import multiprocessing as mp
 import os
 import shutil
+import signal
 import subprocess
 import sys
 import tempfile
@@ -28,13 +29,42 @@ from . import verif_workers as vw
 SCALE = 1.0
 
 
+STEP_CPU_LIMIT = 2.0  # seconds of CPU time one loop iteration may burn before it counts as blocking the loop
+
+
+class LoopBlocked(Exception):
+    pass
+
+
+def _on_vtalrm(signum, frame):
+    loop = SLoop.current
+    if loop is not None:
+        loop.blocked += 1
+    raise LoopBlocked("one event-loop iteration burned more than %.0f s of CPU" % STEP_CPU_LIMIT)
+
+
 class SLoop(asyncio.SelectorEventLoop):
     _last_events = 0
+    current = None
 
     def __init__(self):
         super().__init__()
         self.exc_log = []
+        self.blocked = 0
         self.set_exception_handler(lambda loop, ctx: self.exc_log.append(ctx))
+        SLoop.current = self
+        signal.signal(signal.SIGVTALRM, _on_vtalrm)
+
+    def _run_once(self):
+        # watchdog: code that spins without ever suspending (e.g. a read loop at EOF) would hang the whole
+        # exploration; CPU time (not wall time) so that a stalled machine cannot trip it
+        signal.setitimer(signal.ITIMER_VIRTUAL, STEP_CPU_LIMIT, STEP_CPU_LIMIT)
+        try:
+            super()._run_once()
+        except LoopBlocked:
+            pass
+        finally:
+            signal.setitimer(signal.ITIMER_VIRTUAL, 0)
 
     def quiesce(self, window=None, need=2, maxrounds=4000):
         window = (window or 0.004) * SCALE
@@ -257,6 +287,10 @@ def run_history(kind, hist, tmp, cmd="num-running", early=None):
             elif task.done():
                 viol.append("serving task ended although it was not cancelled")
             states.append((stopped, tuple(sorted(open_clients)), task.done()))
+            if loop.blocked:
+                viol.append(("one session blocked the event loop (pool tasks, other sessions and the serving task starve): "
+                             "a loop iteration burned more than %.0f s of CPU without suspending" % STEP_CPU_LIMIT, ev))
+                break
         if pool.num_running != expected_running:
             viol.append(("pool disturbed", pool.num_running, expected_running))
     except AssertionError as e:
@@ -313,6 +347,8 @@ def _work(args):
                     out.append({"key": "HARNESS", "detail": repr(v2), "history": hist})
             states.update(st)
             n += 1
+            if any(o["key"].startswith("one session blocked the event loop") for o in out):
+                break  # every further history with the same client behaviour would burn the watchdog limit again
     finally:
         shutil.rmtree(tmp, ignore_errors=True)
     return n, sum(len(h) for h in hists), out, states
@@ -421,6 +457,8 @@ def cli_histories(tmp):
                 if b"Disconnected from control server." not in out:
                     viol.append({"key": "CLI client: no disconnect message", "transport": kind, "script": script, "stdout": out.decode()[-300:]})
                 loop.quiesce()
+                if loop.blocked:
+                    viol.append({"key": "one session blocked the event loop", "transport": kind, "script": script, "cli": True})
                 if pool.num_running != running:
                     viol.append({"key": "CLI client disconnect changed the pool", "transport": kind, "script": script})
                 if not stopped:
